@@ -1,4 +1,7 @@
 import Mamba.Lemmas.CanonFFinal
+import Mamba.Lemmas.CanonFTreeFinal
+import Mamba.Lemmas.CanonFPrune
+import Mamba.Lemmas.CanonFPruneLink
 import Mamba.Spec.Iso
 /-!
 # C01 / C02, pattern F — theorems about the faithful model of `graph/canonical.go` (`Mamba/Model/CanonF.lean`)
@@ -305,5 +308,99 @@ theorem reset_panics_small (op : OP) (n m : Nat) (vc : Classes)
   rcases h with h | h
   · exact reset_panics_small_n op n m vc h
   · exact reset_panics_small_m op n m vc h
+
+/-! ## (f) link to the unpruned tree of `Model/IR.lean` (pattern A model of C01 / C02)
+
+`IR.ofSpec g` is the IR graph of `g` (same neighbour lists as the faithful model reads); `irInit g op0` is the IR start
+state for the class colouring of the initial partition `op0 = NewOrderedPartition(n, m, classes)`:
+`IR.initSt (IR.ofSpec g) (#bins of op0) (cell index of a vertex in op0)` — without classes this is `IR.init`
+(`irInit_none`). A leaf of the IR tree is a colouring vertex ↦ position; the returned slice `p` is position ↦ vertex, so
+the leaf is `IR.tab n (fun v => p.idxOf v)`. -/
+
+/-- `canonF_leaf_of_tree`: the permutation returned by the faithful model is one of the leaves of the UNPRUNED tree of
+`Model/IR.lean` for the same graph and classes: the search with all its pruning only ever visits nodes of that tree — the
+colouring after `splitBin` on the first non-singleton bin is `IR.individualise` on the target cell (`splitBin_match`,
+`target_match`), the equitable refinement with its counting arrays, stable sort and work list is `IR.refine` on the
+colouring whenever it does not abort with "worse" (`refine_is_IR_refine`: one iteration = one `IR.pass` with the largest
+work-list entry as splitter), `deage` returns to the colouring of the parent node (`lv_deage`). The `m == 0` shortcut
+returns the identity, which is a leaf of the tree of a graph without edges (`IR.edgeless_identity_leaf`). -/
+theorem canonF_leaf_of_tree (fuel : Nat) (g : G) (hg : g.WF) (vc : Classes) (hvc : ClassesOK g.n vc)
+    (hn : g.n ≠ 0) (r : Res) (h : canonicalIsomorphFull fuel g vc = .ok r) :
+    ∃ op0 p, newOrderedPartition g.n (((nbrsOf g).toList.map List.length).sum / 2) vc = .ok (some op0) ∧
+      r.perm = some p ∧ p.Perm (List.range g.n) ∧
+      IR.tab g.n (fun v => p.idxOf v) ∈ IR.allLeaves (IR.ofSpec g) (irInit g op0) :=
+  canonF_leaf_of_tree_all fuel g hg vc hvc hn r h
+
+/-- without vertex classes the tree is the one of `IR.canonCert` / `IR.canonGraph` (properties C01 / C02) -/
+theorem canonF_leaf_of_tree_simple (fuel : Nat) (g : G) (hg : g.WF) (hn : g.n ≠ 0) (r : Res)
+    (h : canonicalIsomorphFull fuel g none = .ok r) :
+    ∃ p, r.perm = some p ∧ p.Perm (List.range g.n) ∧
+      IR.tab g.n (fun v => p.idxOf v) ∈ IR.allLeaves (IR.ofSpec g) (IR.init (IR.ofSpec g)) := by
+  obtain ⟨op0, p, hnew, hp, hperm, hl⟩ := canonF_leaf_of_tree fuel g hg none trivial hn r h
+  rw [irInit_none (Nat.pos_of_ne_zero hn) hnew] at hl
+  exact ⟨p, hp, hperm, hl⟩
+
+/-- `canonF_cert_le_IR`: the certificate of the returned leaf (`certPos` = `op.value` at the leaf = the edge codes of the
+relabelled graph) is at most the canonical certificate of the IR model, the maximum over ALL leaves of the unpruned tree
+(`≤` is the lexicographic order of `ints.Compare` on lists of equal length). Equality — "the pruning never loses the
+maximal leaf" — is what the correspondence check validates per input. -/
+theorem canonF_cert_le_IR (fuel : Nat) (g : G) (hg : g.WF) (vc : Classes) (hvc : ClassesOK g.n vc) (hn : g.n ≠ 0)
+    (r : Res) (h : canonicalIsomorphFull fuel g vc = .ok r) :
+    ∃ op0 p, newOrderedPartition g.n (((nbrsOf g).toList.map List.length).sum / 2) vc = .ok (some op0) ∧
+      r.perm = some p ∧ certPos (nbrsOf g) p g.n ≤ IR.canonCertFrom (IR.ofSpec g) (irInit g op0) :=
+  canonF_cert_le_full fuel g hg vc hvc hn r h
+
+/-- the refinement of the faithful model is `IR.refine` on the colouring (`Match`: same colouring = `inCell`, same number
+of cells, same work list as a set) -/
+theorem refine_is_IR_refine {n : Nat} {nb : Nbrs} {cb fl : Sl Nat} {opts : Options} {op op' : OP} {sc sc' : Scratch}
+    {s : IR.St} (hp : PartInv n op) (ha : AgeInv op) (hsc : ScratchOK n sc) (htl : sc.timesSeen.len = n)
+    (hb : BtcInv op) (hnb : NbOK nb n) (hm : Match n op s)
+    (hr : refine nb cb fl opts op sc = .ok (false, op', sc')) (rf : Nat) (hrf : 3 * n + 3 ≤ rf) :
+    Match n op' (IR.refine (irG n nb) rf s) ∧ op'.binsToCheck.len = 0 :=
+  refineMatch hp ha hsc htl hb hnb hm hr rf hrf
+
+/-! ## (g) soundness of the three kinds of pruning (ingredients of "the pruning never loses the maximal leaf")
+
+`IR.CertBelow g rf s x`: `x` is the certificate of a leaf of the unpruned tree below the node `s`.
+These are the mathematical cores; the depth-first bookkeeping that combines them (which children of which node have
+been visited when) is not yet proved — see notes/C01F.md. -/
+
+/-- (a) partial-certificate pruning: when `expandValue` reports "worse" with the certificate `value` of the singleton
+prefix `0..s-1` of the order `o`, every complete order `o'` that agrees with `o` on the positions `< s` (every leaf below
+the node) has a full certificate smaller than `currentBest`. -/
+theorem prune_worse_sound {nb : Nbrs} {o o' : List Nat} {s n : Nat} {value cb fl : Sl Nat}
+    (hval : value.toList = certPos nb o s) (hvw : value.WF) (hs : s ≤ n) (hso : s ≤ o.length) (hso' : s ≤ o'.length)
+    (hagree : ∀ p, p < s → o'[p]? = o[p]?) (hcb : cb.WF) (hlen : (certPos nb o' n).length = cb.len)
+    (h : worseTest value cb fl = .ok true) : CanonF.compare (certPos nb o' n) cb.toList = -1 :=
+  worseTest_sound hval hvw hs hso hso' hagree hcb hlen h
+
+/-- (b), (c) orbit pruning (Heuristic 2) and back-jumping (Heuristic 1): two leaves below a node `s` of the unpruned tree
+with the same certificate give the automorphism `γ` = "vertex at position `p` of the first leaf ↦ vertex at position `p`
+of the second" (this is the generator the code records); `γ` preserves the colouring of `s`, and for every child `v` of
+`s` the subtree of the child `γ v` has exactly the leaf certificates of the subtree of the child `v`. So a child whose
+orbit-mate has been explored, and the siblings abandoned by a back-jump, contain no certificate that has not been seen. -/
+theorem equal_leaves_prune_sound {n : Nat} {nb : Nbrs} (hnb : NbOK nb n) (rf : Nat) {s : IR.St} {o1 o2 : List Nat}
+    (h1 : o1.Perm (List.range n)) (h2 : o2.Perm (List.range n))
+    (hm1 : IR.Mono n s.c (IR.tab n (fun v => o1.idxOf v))) (hm2 : IR.Mono n s.c (IR.tab n (fun v => o2.idxOf v)))
+    (hc : certPos nb o1 n = certPos nb o2 n) {t v : Nat} (hv : v < n) (x : List Nat) :
+    IR.CertBelow (irG n nb) rf (IR.childSt (irG n nb) rf s t ((transport n o1 o2).getD v 0)) x ↔
+      IR.CertBelow (irG n nb) rf (IR.childSt (irG n nb) rf s t v) x :=
+  equal_leaves_subtrees hnb rf h1 h2 hm1 hm2 hc hv x
+
+/-- `value_bounded_partial` (towards `reuse_eq_fresh`): under the certificate invariant (`VAny`, which the main loop
+maintains: `CanonFGens.mainLoop_cert`) the certificate `op.value` never has more than `m` entries, so `worseTest` never
+re-slices `currentBest` / `firstLeaf` beyond their length `m` — the bound that was doubtful before commit 0bfbb07.
+PARTIAL with respect to `reuse_eq_fresh` itself (independence of the result of `CanonicalIsomorphAllocated` from the prior
+contents of storage and partition), which is not proved: it needs a relational argument through the whole model and, at
+`hasPrefix` / `h1Index` on `currentBestPath` / `firstLeafPath` (length `n`, entries beyond the leaf's depth are stale), the
+tree fact that no path extends a leaf. -/
+theorem value_bounded_partial {n : Nat} {nb : Nbrs} {cb fl : Sl Nat} {op : OP} (hnb : NbOK nb n) (hsz : nb.size = n)
+    (hp : PartInv n op) (hv : VAny nb cb fl op) : op.value.len ≤ ((nb.toList.map List.length).sum) / 2 :=
+  value_len_le hnb hsz hp hv
+
+/-- every leaf below a node refines the colouring of the node monotonically (the hypothesis `hm1`, `hm2` above) -/
+theorem leaf_below_node_mono {n : Nat} {nb : Nbrs} (hnb : NbOK nb n) (rf : Nat) (vs : List Nat) (s : IR.St)
+    (h : IR.IsPath (irG n nb) rf s vs) : IR.Mono n s.c (IR.nodeAt (irG n nb) rf s vs).c :=
+  path_mono hnb rf vs s h
 
 end C01F
